@@ -81,7 +81,9 @@ def _jsonable(v):
     if isinstance(v, int):
         return int(v)
     if isinstance(v, str):
-        return {"__str__": [ord(c) for c in v]}
+        if any(0xD800 <= ord(c) < 0xE000 for c in v):
+            return {"__str__": [ord(c) for c in v]}
+        return str(v)
     if isinstance(v, (list, tuple)):
         return [_jsonable(x) for x in v]
     if isinstance(v, dict):
